@@ -416,6 +416,68 @@ func runCheck(repo, verif, prop, tier string, verbose bool) int {
 			}
 		}
 	}
+	// Second chance for closures: a closure is verified on its own against unconstrained captured
+	// variables; when that fails, its rules are decided again in the context of the function that
+	// creates it (inlined at its call / go sites, with the values it actually captures).
+	ctxDischarged := map[string]bool{}
+	{
+		byClosure := map[string][]string{}
+		for _, name := range order {
+			g := groups[name]
+			if len(g.failed) == 0 || g.cover {
+				continue
+			}
+			owner := name
+			if i := strings.Index(owner, "/"); i >= 0 {
+				owner = owner[:i]
+			}
+			if fn := e.fnByKey[owner]; fn != nil && fn.Parent() != nil && e.contracts.funcs[owner] != nil && g.failed[0].Fn == owner && closureUsedOnlyInPlace(fn) {
+				byClosure[owner] = append(byClosure[owner], name)
+			}
+		}
+		for _, ck := range sortedKeys(byClosure) {
+			parent := e.fnByKey[ck].Parent()
+			pk := qualFnName(parent)
+			pfc := e.contracts.funcs[pk]
+			if pfc == nil {
+				pfc = &FuncContract{Key: pk, Props: []string{prop}, LoopInv: map[int][]*Clause{}}
+			}
+			r2 := e.verifyFunctionIn(pfc, map[string]bool{ck: true})
+			var sub []*Obligation
+			for _, o := range r2.Obls {
+				if strings.HasPrefix(o.Name, ck+"/") {
+					sub = append(sub, o)
+				}
+			}
+			if os.Getenv("GOVC_DEBUG_INCTX") != "" {
+				fmt.Printf("in-context: closure %s in %s: %d obligations (%d total in parent run), undecided=%v\n", ck, pk, len(sub), len(r2.Obls), r2.Undecided)
+			}
+			if len(sub) == 0 {
+				continue
+			}
+			solveAll(sub, timeout, runtime.NumCPU(), scratch, false)
+			if os.Getenv("GOVC_DEBUG_INCTX") != "" {
+				for _, o := range sub {
+					fmt.Printf("   %s %s\n", o.Verdict, o.Name)
+				}
+			}
+			for _, name := range byClosure[ck] {
+				n, bad := 0, 0
+				for _, o := range sub {
+					if o.Name == name {
+						n++
+						if !(o.Verdict == "unsat" || o.Verdict == "syntactic") {
+							bad++
+						}
+					}
+				}
+				if n > 0 && bad == 0 {
+					ctxDischarged[name] = true
+					notes["obligation "+name+" discharged in the context of "+pk+" (with the values the closure actually captures), not for arbitrary captured values"] = true
+				}
+			}
+		}
+	}
 	known := loadKnownFindings(filepath.Join(verif, "known_findings"))
 	violations := 0
 	discharged := 0
@@ -424,6 +486,10 @@ func runCheck(repo, verif, prop, tier string, verbose bool) int {
 	replayDir := filepath.Join(outDir, "replays", prop)
 	for _, name := range order {
 		g := groups[name]
+		if len(g.failed) > 0 && ctxDischarged[name] {
+			discharged++
+			continue
+		}
 		if len(g.failed) == 0 {
 			discharged++
 			if len(samples) < 6 && g.instances[0].Backend != "syntactic" && g.instances[0].Backend != "structural" {
@@ -714,4 +780,42 @@ func (e *Engine) notAViolation(f *Obligation, name string, base map[string]Shape
 		return "the refutation depends on the unconstrained result of " + f.OpqDep + ", a call that has no contract"
 	}
 	return ""
+}
+
+// closureUsedOnlyInPlace: the closure value is only called or spawned where it is created (it is not
+// stored, passed on or returned), so checking it at those sites covers every execution of it.
+func closureUsedOnlyInPlace(fn *ssa.Function) bool {
+	p := fn.Parent()
+	if p == nil {
+		return false
+	}
+	found := false
+	for _, b := range p.Blocks {
+		for _, in := range b.Instrs {
+			mc, ok := in.(*ssa.MakeClosure)
+			if !ok || mc.Fn != fn {
+				continue
+			}
+			found = true
+			if mc.Referrers() == nil {
+				return false
+			}
+			for _, r := range *mc.Referrers() {
+				switch x := r.(type) {
+				case *ssa.Call:
+					if x.Call.Value != mc {
+						return false
+					}
+				case *ssa.Go:
+					if x.Call.Value != mc {
+						return false
+					}
+				case *ssa.DebugRef:
+				default:
+					return false
+				}
+			}
+		}
+	}
+	return found
 }
